@@ -353,3 +353,36 @@ func (P *Prog) isNonNilSentinel(g *ssa.Global) bool {
 	}
 	return false
 }
+
+// bigIntConst: a constant global *big.Int initialised in package init by big.NewInt(c) and never written.
+func (P *Prog) bigIntConst(g *ssa.Global) (int64, bool) {
+	if g.Pkg == nil {
+		return 0, false
+	}
+	init := g.Pkg.Func("init")
+	if init == nil {
+		return 0, false
+	}
+	for _, b := range init.Blocks {
+		for _, ins := range b.Instrs {
+			st, ok := ins.(*ssa.Store)
+			if !ok || st.Addr != ssa.Value(g) {
+				continue
+			}
+			call, ok := st.Val.(*ssa.Call)
+			if !ok {
+				return 0, false
+			}
+			c := call.Call.StaticCallee()
+			if c == nil || c.String() != "math/big.NewInt" || len(call.Call.Args) != 1 {
+				return 0, false
+			}
+			k, ok := call.Call.Args[0].(*ssa.Const)
+			if !ok || k.Value == nil {
+				return 0, false
+			}
+			return k.Int64(), true
+		}
+	}
+	return 0, false
+}
